@@ -123,7 +123,7 @@ def check(chk, facts):
             chk.ob(rule, "new:%s:%s" % (s["fn"].split("::")[-1], s["what"]), False,
                    "%s rejects with %s under guards %s — not in the reviewed table (a check was added, or the condition / constant of an existing one changed)" % (s["fn"], s["what"], [tuple(g) for g in s["guards"]][:5]),
                    where="%s:%s" % (s["file"], s["line"]), key="%s:new:%s" % (rule, k))
-    chk.floor(rule, "rejection sites", len(sites), 40)
+    chk.floor(rule, "rejection sites", len(sites), 36)
     rule2 = "C07.FORMS"
     for fn, pats in sorted(tab["forms"].items()):
         have = sorted(regexes.get(fn, []))
